@@ -73,6 +73,15 @@ def _shape(t):
     return {"n": t["n"], "nt": t["nt"], "open": t["open"], "c": t["c"], "ch": [_shape(c) for c in t["ch"]]}
 
 
+def _depth(t):
+    d, stack = 0, [(t, 1)]
+    while stack:
+        n, k = stack.pop()
+        d = max(d, k)
+        stack.extend((c, k + 1) for c in n["ch"])
+    return d
+
+
 def _renum(t):
     t = json.loads(json.dumps(t))
     pj.renumber(t)
@@ -174,6 +183,11 @@ def run(chk, units):
                 if st["res"] == "timeout":
                     chk.cov["unjudged"] += 1
                     chk.note("step_timeouts_" + st["op"])
+                    continue
+                if st["res"] == "ok" and _depth(st["post"]) > 100:
+                    # the JSON reader of TLC's Json module refuses values nested deeper than 255 levels (two per tree level)
+                    chk.cov["unjudged"] += 1
+                    chk.note("results_deeper_than_100_levels_not_judged")
                     continue
                 sid = len(steps) + 1
                 steps.append({"id": sid, "gi": gnames.index(u["grammar"]) + 1, "kind": st["kind"], "res": st["res"],
